@@ -9,7 +9,11 @@ __typeof__(ss_solver_obj) ss_solver_obj;
 #ifdef IR2C_NEEDG_ss_config_obj
 __typeof__(ss_config_obj) ss_config_obj;
 #endif
+#ifdef IR2C_NEEDG_ss_amap_tbl
+__typeof__(ss_amap_tbl) ss_amap_tbl;
+#endif
 #else
+__attribute__((aligned(64))) char ss_amap_tbl[31 * 16];
 __attribute__((aligned(64))) char ss_solver_obj[4096];
 __attribute__((aligned(64))) char ss_config_obj[4096];
 #endif
